@@ -41,7 +41,7 @@ class Gen:
                 distinct=True, having=True, neg=True, strcat=True, group_expr=True, agg_str=True,
                 order=True, limit=True, sel_bool=True, countd=True, nested_bool=True,
                 touch_all=False, const_pred=True, order_const=True, agg_const=True, distinct_order=True,
-                not_in_sub=True, sub_top_only=False, sel_needs_col=False, derived=0.0)
+                not_in_sub=True, not_exists=True, sub_top_only=False, sel_needs_col=False, derived=0.0)
 
     def __init__(self, rnd, tables=None, subq=True, joins=True, ints=INTS, strs=STRS, maxrows=4, feat=None):
         self.r = rnd
@@ -195,7 +195,9 @@ class Gen:
                 # EXISTS: correlate by an equality between an inner and an outer column
                 ic = r.choice([c for c in sscope if c[2] == INT])
                 oc = r.choice(self.cols(scope, INT))
-                corr = ("bin", "=", ("col", ic[0], ic[1], INT), ("col", oc[0], oc[1], INT), BOOL)
+                # mostly an equality (hash semi / anti join), sometimes an inequality (nested-loop semi / anti join)
+                cop = r.choice(["=", "=", "=", "<", ">"])
+                corr = ("bin", cop, ("col", ic[0], ic[1], INT), ("col", oc[0], oc[1], INT), BOOL)
                 where = corr if where is None or r.random() < 0.5 else ("bin", "and", corr, where, BOOL)
             else:
                 # IN / scalar: uncorrelated
@@ -207,7 +209,7 @@ class Gen:
         if k < 0.8:
             sub = dict(sel=[(("ci", 1), "s1")], frm=("t", t, al), where=where, grp=[], hav=None, agg=False,
                        dist=False, ord=[], lim=-1, off=0)
-            return ("exists", sub, r.random() < 0.4 and self.f["not_in_sub"], BOOL)
+            return ("exists", sub, r.random() < 0.4 and self.f.get("not_exists", self.f["not_in_sub"]), BOOL)
         f = r.choice(["max", "min", "count", "sum"])
         if self.f["sub_top_only"]:
             where = self.bool_expr(sscope, None, 1) if r.random() < 0.5 else None
